@@ -51,14 +51,15 @@ const (
 )
 
 type callOutcome struct {
-	log    []Event
-	res    string
-	err    string
-	errObj error
-	panicV interface{}
-	state  goja.VerifState
-	probes int64
-	ticks  int64
+	log      []Event
+	res      string
+	err      string
+	errObj   error
+	panicV   interface{}
+	state    goja.VerifState
+	probes   int64
+	ticks    int64
+	maxDepth int
 
 	fired         bool
 	firedTick     int64
@@ -199,7 +200,7 @@ func errDesc(err error) string {
 // doCall performs one outermost API call and records everything host-observable about it.
 func (e *faultsim) doCall(h *Host, c histCall, bodies []genBody, iterSite int) (out callOutcome) {
 	rt := h.rt
-	h.ticks, h.probes, h.fired = 0, 0, false
+	h.ticks, h.probes, h.fired, h.maxDepth = 0, 0, false, 0
 	start := len(h.log)
 	name := bodies[c.Body].Name
 	var v goja.Value
@@ -279,7 +280,7 @@ func (e *faultsim) doCall(h *Host, c histCall, bodies []genBody, iterSite int) (
 	out.err = errDesc(err)
 	out.errObj = err
 	out.state = rt.VerifState()
-	out.probes, out.ticks = h.probes, h.ticks
+	out.probes, out.ticks, out.maxDepth = h.probes, h.ticks, h.maxDepth
 	if h.fired {
 		out.fired, out.firedTick, out.firedLog = true, h.firedTick, h.firedLog-start
 		out.firedDesc = inflight(h.firedState, h.firedNest)
@@ -581,7 +582,11 @@ func (e *faultsim) Run(t *core.Tape, want bool) *core.Result {
 		}
 		switch f.Kind {
 		case FDepth:
+			// every limit 0..64, biased to the depths this call actually reaches (a limit above them never fires)
 			f.Limit = S.Draw(65)
+			if S.Draw(4) != 0 {
+				f.Limit = S.Draw(min(65, cf[ci].maxDepth+2))
+			}
 		case FTickIntr, FAsyncIntr:
 			if cf[ci].ticks == 0 {
 				continue
